@@ -8,11 +8,12 @@ Module C01.
 Definition case := LC.case.
 
 (* after a successful mount: every configured mountpoint of every layer of the chain carries
-   exactly one mount, of the right kind and source *)
-Definition mount_post (c : cfgT) (f : fsT) (m : lmap) (ch : list layer) (tab : list kline) : bool :=
+   exactly one mount (or as many as somebody had stacked there by hand before: [tab0] is the
+   table before the command), and the top one is of the right kind and source *)
+Definition mount_post (c : cfgT) (f : fsT) (m : lmap) (ch : list layer) (tab0 tab : list kline) : bool :=
   forallb (fun x =>
     forallb (fun em =>
-      (count_at tab (em_target em) =? 1)%nat
+      (count_at tab (em_target em) =? Nat.max 1 (count_at tab0 (em_target em)))%nat
       && match top_at tab (em_target em) with
          | Some k => if em_overlay em then is_right_overlay c m x k
                      else shows_source tab k (em_source em) (em_fstype em)
@@ -21,19 +22,22 @@ Definition mount_post (c : cfgT) (f : fsT) (m : lmap) (ch : list layer) (tab : l
 
 (* recursive binds of /dev, /sys, /run are followed at once by the recursive-slave call; no
    other propagation call exists *)
-Fixpoint propagation_ok (calls : list op) : bool :=
+Fixpoint propagation_ok (failed_last : bool) (calls : list op) : bool :=
   match calls with
   | [] => true
   | OMount s t ty fl d :: r =>
     if has_flag fl MS_SLAVE then false       (* a slave call not consumed by the clause below *)
-    else if has_flag fl MS_BIND && has_flag fl MS_REC && memb s propagation_sources then
+    else if memb s propagation_sources then
       match r with
       | OMount s2 t2 _ fl2 _ :: r' =>
-        beq s2 [] && beq t2 t && (fl2 =? MS_SLAVE + MS_REC) && propagation_ok r'
-      | _ => false
+        if has_flag fl2 MS_SLAVE
+        then beq s2 [] && beq t2 t && (fl2 =? MS_SLAVE + MS_REC) && propagation_ok failed_last r'
+        else negb (has_flag fl MS_BIND && has_flag fl MS_REC) && propagation_ok failed_last r
+      | [] => failed_last                    (* the mount itself failed and ended the command *)
+      | _ => negb (has_flag fl MS_BIND && has_flag fl MS_REC) && propagation_ok failed_last r
       end
-    else propagation_ok r
-  | _ :: r => propagation_ok r
+    else propagation_ok failed_last r
+  | _ :: r => propagation_ok failed_last r
   end.
 
 Definition step_spec (c : cfgT) (w : wobs) (v : sview) : bool :=
@@ -47,7 +51,7 @@ Definition step_spec (c : cfgT) (w : wobs) (v : sview) : bool :=
     let calls := syscalls (v_log v) in
     (* whatever the outcome: ordering, propagation, nothing stacked, nothing outside *)
     subseq (mount_targets calls) (map em_target exp)
-    && propagation_ok calls
+    && propagation_ok (rclass_beq (v_res v) RFail) calls
     && replay_calls (wo_fs w') (wo_ks w) calls (fun ks o =>
          match o with
          | OMount _ t _ fl _ =>
@@ -58,7 +62,7 @@ Definition step_spec (c : cfgT) (w : wobs) (v : sview) : bool :=
          | _ => true
          end)
     && match v_res v with
-       | ROk => mount_post c f m ch (ks_tab (wo_ks w'))
+       | ROk => mount_post c f m ch (ks_tab (wo_ks w)) (ks_tab (wo_ks w'))
        | _ => true
        end
   | _ => true
@@ -66,6 +70,18 @@ Definition step_spec (c : cfgT) (w : wobs) (v : sview) : bool :=
 
 Definition spec (c : case) : bool := along_views (step_spec (c_cfg c)) (w0 c) (c_steps c).
 Definition wf := LC.wf.
-Definition kf (c : case) : N := 0.
+(* known finding 1: a recursive-bind import whose mountpoint lies ABOVE the mountpoint of an
+   earlier import of the same layer: submounts of the host source are copied by the kernel on
+   top of the earlier import (imports are mounted in configuration order) *)
+Definition rbind_over_earlier (x : layer) : bool :=
+  (fix go (seen : list bytes) (ms : list nmount) : bool :=
+     match ms with
+     | [] => false
+     | nm :: r =>
+       (beq (nm_fstype nm) (bs "rbind") && existsb (fun p => under (nm_mount nm) p) seen)
+       || go (nm_mount nm :: seen) r
+     end) [] (l_mounts x).
+Definition kf (c : case) : N :=
+  if existsb rbind_over_earlier (layers_on_disk (c_cfg c) (c_fs0 c)) then 1 else 0.
 Definition verdict (c : case) : N := mkverdict (wf c) (LC.corr c) (spec c) (kf c).
 End C01.
